@@ -65,8 +65,8 @@ type FnEnc struct {
 	obls        []*Obl
 	oblCount    map[string]int
 	assertFired map[int]bool
-	lastArgs    []RV // arguments of the call being translated (arg0, arg1, ... in cut points)
-	lastRets    []RV // results of the call being translated (bound as ret, ret0, ret1 in `after` cut points)
+	lastArgs    []RV              // arguments of the call being translated (arg0, arg1, ... in cut points)
+	lastRets    []RV              // results of the call being translated (bound as ret, ret0, ret1 in `after` cut points)
 	lits        map[string]string // const name -> literal
 	loops       []*Loop
 	loopOf      map[*ssa.BasicBlock]*Loop
@@ -1109,7 +1109,7 @@ func (fe *FnEnc) srcText(pos token.Pos, kind string) string {
 		case *ast.TypeAssertExpr:
 			ok = kind == "assert"
 		case *ast.CallExpr:
-			ok = kind == "nil" || kind == "relock" || kind == "bounds" || kind == "pre" || kind == "neg"
+			ok = kind == "nil" || kind == "relock" || kind == "bounds" || kind == "pre" || kind == "neg" || kind == "deppanic"
 		case *ast.BinaryExpr:
 			ok = kind == "div"
 		case *ast.AssignStmt, *ast.IncDecStmt, *ast.RangeStmt, *ast.ReturnStmt, *ast.ExprStmt:
